@@ -43,13 +43,13 @@ class UF:
             if any(len(seq_cells(a, SymBytes)) != len(seq_cells(b, SymBytes)) for a, b in zip(inputs, ins2)):
                 if self.injective_prefix:
                     k = self.injective_prefix
-                    ctx.solver.add(z3.Not(eq_bytes(SymBytes(out.cells[:k]), SymBytes(out2.cells[:k]))))
+                    ctx.add_c(z3.Not(eq_bytes(SymBytes(out.cells[:k]), SymBytes(out2.cells[:k]))))
                 continue
             same = z3.And(*[eq_bytes(a, b) for a, b in zip(inputs, ins2)])
-            ctx.solver.add(z3.Implies(same, eq_bytes(out, out2)))
+            ctx.add_c(z3.Implies(same, eq_bytes(out, out2)))
             if self.injective_prefix:
                 k = self.injective_prefix
-                ctx.solver.add(z3.Implies(z3.Not(same), z3.Not(eq_bytes(SymBytes(out.cells[:k]), SymBytes(out2.cells[:k])))))
+                ctx.add_c(z3.Implies(z3.Not(same), z3.Not(eq_bytes(SymBytes(out.cells[:k]), SymBytes(out2.cells[:k])))))
         self.apps.append((tuple(inputs), out))
         return out
 
@@ -74,7 +74,7 @@ class CryptoEnv:
             if len(ct2.cells) != n:
                 continue
             samek = z3.And(eq_bytes(key, k2), eq_bytes(iv, iv2))
-            ctx.solver.add(z3.Implies(samek, eq_bytes(pt, pt2) == eq_bytes(ct, ct2)))  # permutation per (key, iv)
+            ctx.add_c(z3.Implies(samek, eq_bytes(pt, pt2) == eq_bytes(ct, ct2)))  # permutation per (key, iv)
         self.enc.append((key, iv, pt, ct))
         return ct
 
@@ -89,7 +89,7 @@ class CryptoEnv:
             if len(ct2.cells) != n:
                 continue
             samek = z3.And(eq_bytes(key, k2), eq_bytes(iv, iv2))
-            ctx.solver.add(z3.Implies(samek, eq_bytes(pt, pt2) == eq_bytes(ct, ct2)))
+            ctx.add_c(z3.Implies(samek, eq_bytes(pt, pt2) == eq_bytes(ct, ct2)))
         self.enc.append((key, iv, pt, ct))
         return pt
 
